@@ -251,7 +251,7 @@ pub fn exp_c03(e: &mut Exp) {
 // ---------------------------------------------------------------------------------------------
 // C04: t-digest rank accuracy and bounded size
 fn td_rank_check<S: ScaleFunction + Clone + std::fmt::Debug>(e: &mut Exp, name: &str, sf: S, delta: f64, wfun: &dyn Fn(f64, f64) -> f64, bl: usize, n: usize) {
-    for shape in 0..5 {
+    for shape in 0..7 {
         let mut d = TDigest::new(sf.clone(), bl);
         let mut xs: Vec<f64> = Vec::with_capacity(n);
         for i in 0..n {
@@ -260,6 +260,9 @@ fn td_rank_check<S: ScaleFunction + Clone + std::fmt::Debug>(e: &mut Exp, name: 
                 1 => (n - i) as f64,
                 2 => (e.rng.f01() * 10.0).floor(),                         // discrete, heavy ties
                 3 => (e.rng.f01() * 14.0 - 7.0).exp(),                     // heavy tail
+                5 => (3 * i / n) as f64,                                   // sorted, three long runs of equal values
+                // smooth data with one long burst of a repeated value in the middle of the stream
+                6 => if i >= n / 3 && i < n / 3 + 3 * n / 10 { 0.25 } else { (0..6).map(|_| e.rng.f01()).sum::<f64>() - 3.0 },
                 _ => (0..6).map(|_| e.rng.f01()).sum::<f64>() - 3.0,       // ~normal
             };
             xs.push(x);
@@ -276,7 +279,7 @@ fn td_rank_check<S: ScaleFunction + Clone + std::fmt::Debug>(e: &mut Exp, name: 
         }
         xs.sort_by(|a, b| a.partial_cmp(b).unwrap());
         let w = wfun(delta, n as f64);
-        let c = if shape == 2 || shape == 3 { 3.0 } else { 1.0 };
+        let c = if shape == 2 || shape == 3 || shape == 5 || shape == 6 { 3.0 } else { 1.0 };
         let bound = c * w + 2.0 / n as f64 + 1e-12;
         let mut worst = 0.0f64;
         for qi in 0..=200 {
@@ -319,15 +322,16 @@ fn td_rank_check<S: ScaleFunction + Clone + std::fmt::Debug>(e: &mut Exp, name: 
 }
 
 pub fn exp_c04(e: &mut Exp) {
-    let deltas: &[f64] = if e.scale > 1 { &[1.5, 5.0, 20.0, 100.0, 1000.0] } else { &[5.0, 50.0] };
+    let deltas: &[f64] = if e.scale > 1 { &[1.5, 5.0, 20.0, 100.0, 1000.0] } else { &[5.0, 50.0, 200.0] };
     let ns: &[usize] = if e.scale > 1 { &[1, 30, 2000, 100_000] } else { &[30, 8000] };
     for &delta in deltas {
         for &n in ns {
-            let bl = *e.rng.pick(&[0usize, 1, 10, 1000]);
-            td_rank_check(e, "K0", K0::new(delta), delta, &|d, _| 2.0 / d, bl, n);
-            td_rank_check(e, "K1", K1::new(delta), delta, &|d, _| std::f64::consts::PI / d, bl, n);
-            td_rank_check(e, "K2", K2::new(delta), delta, &|d, n| if n >= d { ((n / d).ln() + 6.0) / d } else { 1.0 }, bl, n);
-            td_rank_check(e, "K3", K3::new(delta), delta, &|d, n| if n >= d { (2.0 * (n / d).ln() + 10.5) / d } else { 1.0 }, bl, n);
+            for bl in [*e.rng.pick(&[0usize, 1]), *e.rng.pick(&[10usize, 1000])] {
+                td_rank_check(e, "K0", K0::new(delta), delta, &|d, _| 2.0 / d, bl, n);
+                td_rank_check(e, "K1", K1::new(delta), delta, &|d, _| std::f64::consts::PI / d, bl, n);
+                td_rank_check(e, "K2", K2::new(delta), delta, &|d, n| if n >= d { ((n / d).ln() + 6.0) / d } else { 1.0 }, bl, n);
+                td_rank_check(e, "K3", K3::new(delta), delta, &|d, n| if n >= d { (2.0 * (n / d).ln() + 10.5) / d } else { 1.0 }, bl, n);
+            }
         }
     }
 }
@@ -489,7 +493,7 @@ pub fn exp_c08(e: &mut Exp) {
     let grid: &[(f64, f64)] = if e.scale > 1 {
         &[(0.1, 0.5), (0.05, 0.1), (0.02, 0.01), (0.2, 0.9), (0.01, 0.3), (0.3, 0.05), (0.005, 0.2)]
     } else {
-        &[(0.1, 0.5), (0.05, 0.1), (0.2, 0.9), (0.02, 0.01), (0.025, 0.1), (0.09, 0.05), (0.03, 0.05)]
+        &[(0.1, 0.5), (0.05, 0.1), (0.2, 0.9), (0.02, 0.01), (0.025, 0.1), (0.09, 0.05), (0.03, 0.05), (0.1, 0.15), (0.2, 0.2), (0.0625, 0.25)]
     };
     for &(eps, delta) in grid {
         for shape in 0..3 {
